@@ -52,7 +52,8 @@ NDIR = 4
 
 def _exportable_ws(rng, tag):
     ws = specs.gen_workspace(rng, max_channels=2, max_samples=2, max_bins=3, exportable=True, n_meas=(1, 3),
-                             mods=rng.sample(specs.ALL_MODS, rng.randint(3, 7)), name_prefix="")
+                             mods=rng.sample(specs.ALL_MODS, rng.randint(3, 7)),
+                             name_prefix=rng.choice(["", "", "", "μ_", "a_", "pl", "h_", "_", "Gamma_"]))   # names are free text
     # staterror may carry any name in JSON (the format renames it)
     if rng.random() < 0.4:
         for c in ws["channels"]:
